@@ -513,6 +513,12 @@ def step_clock_go(tier, seed, ctx):
     cases = [(wfen, "go wtime 4000 btime 4000", 4000), (wfen, "go wtime 2000 btime 2000 winc 100 binc 100 depth 40", 2000),
              (bfen, "go wtime 60000 btime 1500 winc 0 binc 0", 1500), (wfen, "go wtime 300 btime 300", 300),
              (bfen, "go binc 50 winc 5000 btime 900 wtime 900000", 900), (wfen, "go wtime 0 btime 0", 0), (wfen, "go depth 30 wtime 1200 btime 1200", 1200)]
+    # increment-dominated allocation (budget = remaining time - margin) on positions whose score collapses between iterations:
+    # the limit the search really enforces must still fit the clock
+    vol = "7k/8/8/8/8/7p/P7/K7 w - - 0 1"
+    cases += [(vol, "go wtime 1500 btime 1500 winc 5000 binc 5000", 1500)]
+    if tier != "quick":
+        cases += [("6k1/5ppp/8/8/8/p7/5PPP/6K1 w - - 0 1", "go wtime 2500 winc 9000 btime 2500 binc 9000", 2500)]
     if tier != "quick":
         cases += [(wfen, "go wtime 10000 btime 10000 winc 0 binc 0", 10000), (bfen, "go wtime 1 btime 1 winc 1 binc 1", 1), (wfen, "go movestogo 40 wtime 2500 btime 2500", 2500)]
     worst = None
@@ -579,6 +585,12 @@ EXPLOSIVE = [
 ]
 
 
+VOLATILE = [
+    "6k1/5ppp/8/8/8/p7/5PPP/6K1 w - - 0 1",
+    "7k/8/8/8/8/7p/P7/K7 w - - 0 1",
+]
+
+
 def step_latency(tier, seed, ctx):
     """C07 observed part: go movetime T returns within T + a fixed generous bound on positions whose quiescence explodes."""
     res = {"name": "blackbox-latency", "violations": [], "broken": [], "evaluations": 0, "distinct_nontrivial": 0, "samples": [], "distribution": {}, "spec_compared": 0}
@@ -596,7 +608,14 @@ def step_latency(tier, seed, ctx):
     quiet = "b1b1k1b1/8/8/1p1p1p1p/pPpPpPpP/P1P1P1P1/8/B1B1K1B1 w - - 0 1"
     quiet_sessions = [[1500]] if tier == "quick" else [[700], [1500], [2400]]
     worst = 0.0
-    plan = [(fen, sess) for fen in EXPLOSIVE for sess in sessions] + [(fen, sess) for fen in (EXPLOSIVE[3], EXPLOSIVE[4]) for sess in long_short] + [(quiet, sess) for sess in quiet_sessions]
+    # positions whose score collapses from one iteration to the next (an unstoppable passed pawn seen at depth 3-4): a deadline
+    # that is moved while the search runs ("panic time") shows here and nowhere else; one session starts with a clock-mode go
+    # (an entry ("raw", command, its budget) is sent as it is and only has to be answered) so that state set by the clock
+    # parser is in place for the movetime search that follows
+    volatile_sessions = [[900], [("raw", "go wtime 17500 btime 17500", 500), 1200]] if tier == "quick" else \
+        [[900], [2000], [("raw", "go wtime 17500 btime 17500", 500), 1200], [("raw", "go wtime 30000 btime 30000 winc 0 binc 0", 1000), 2000, 700]]
+    plan = [(fen, sess) for fen in EXPLOSIVE for sess in sessions] + [(fen, sess) for fen in (EXPLOSIVE[3], EXPLOSIVE[4]) for sess in long_short] + [(quiet, sess) for sess in quiet_sessions] + \
+        [(fen, sess) for fen in VOLATILE for sess in volatile_sessions]
     def run_session(fen, sess):
         """one process, the budgets of `sess` one after the other; returns (violation or None, [samples], worst overshoot)"""
         viol, samples, worst_here = None, [], 0.0
@@ -609,6 +628,9 @@ def step_latency(tier, seed, ctx):
                 if not ln or ln.strip() == "readyok":
                     break
             for idx, t in enumerate(sess):
+                raw = None
+                if isinstance(t, tuple):
+                    raw, t = t[1], t[2]
                 t0 = time.time()
                 # watchdog: an engine that does not answer at all is killed (and reported) instead of blocking the check
                 wd = threading.Timer((t + bound_ms) / 1000.0 + 20.0, p.kill)
@@ -616,7 +638,9 @@ def step_latency(tier, seed, ctx):
                 # the budget is a budget however the command spells it: with a (non-binding) depth cap after or before it
                 forms = ["go movetime %d", "go movetime %d depth 60", "go depth 60 movetime %d", "go movetime %d"]
                 form = forms[(idx + len(sess) + t + len(fen)) % len(forms)]
-                p.stdin.write((form % t) + "\n")
+                if raw is not None:
+                    form = raw.replace("%", "%%")
+                p.stdin.write(((form % t) if raw is None else raw) + "\n")
                 p.stdin.flush()
                 got = None
                 while True:
@@ -631,9 +655,9 @@ def step_latency(tier, seed, ctx):
                 over = dt - t
                 worst_here = max(worst_here, over)
                 if got is None or over > bound_ms:
-                    viol = {"kind": "latency", "fen": fen, "session_movetimes_ms": sess, "go_index": idx, "command": form % t, "movetime_ms": t, "answered_after_ms": round(dt, 1), "bound_ms": t + bound_ms, "answer": got}
+                    viol = {"kind": "latency", "fen": fen, "session_movetimes_ms": sess, "go_index": idx, "command": (form % t) if raw is None else raw, "movetime_ms": t, "answered_after_ms": round(dt, 1), "bound_ms": t + bound_ms, "answer": got}
                     break
-                samples.append({"fen": fen, "session_movetimes_ms": sess, "command": form % t, "movetime_ms": t, "answered_after_ms": round(dt, 1), "answer": got})
+                samples.append({"fen": fen, "session_movetimes_ms": sess, "command": (form % t) if raw is None else raw, "movetime_ms": t, "answered_after_ms": round(dt, 1), "answer": got})
         finally:
             try:
                 p.stdin.write("quit\n")
@@ -668,7 +692,7 @@ def step_latency(tier, seed, ctx):
             v["attempts"] = [a[0]["answered_after_ms"] for a in attempts]
             res["violations"].append(v)
             worst = max(worst, max(a[1] for a in attempts))
-    budgets = sessions + long_short + quiet_sessions
+    budgets = sessions + long_short + quiet_sessions + volatile_sessions
     res["distinct_nontrivial"] = res["evaluations"]
     res["distribution"] = {"blackbox_latency": {"max_overshoot_ms": round(worst, 1), "bound_ms": bound_ms, "positions": len(EXPLOSIVE), "budgets_ms": budgets, "sessions_repeated_after_a_late_answer": retried}}
     return res
